@@ -61,6 +61,12 @@ def judge (j : Json) : Except String Json := do
       let o := (rq.getObjValAs? String "owner").toOption.getD "o"
       let s := (rq.getObjValAs? String "sid").toOption.getD "s"
       handedOK := handed.all fun t => t.state == .active && t.client == client
+      -- … and that is what is STORED: the record of every handed trial is ACTIVE for this worker
+      match after.studies.find? (fun x => x.owner == o && x.sid == s) with
+      | none => if !handed.isEmpty then handedOK := false
+      | some st' =>
+        if !(handed.all fun t => st'.trials.any fun u => u.id == t.id && u.state == .active && u.client == client) then
+          handedOK := false
       match before.studies.find? (fun x => x.owner == o && x.sid == s) with
       | none => pure ()
       | some st =>
